@@ -108,7 +108,9 @@ C17ModelLookupFails(c) ==
            LET tt == TT(c.res)
            IN \A o \in DOMAIN c.mtt : \A r \in AllRows(c.n) :
                  c.mtt[o][r + 1] = 2 \/ ((c.mtt[o][r + 1] = 1) <=> (r \in tt[o]))>>,
+       \* the size measure is the caller's: gates whose type is not in the exclusion list (c.excl; absent = the documented default)
        <<"model-lookup-larger-than-another-completion",
-           \A s \in sizes : SizeOf(c.res) <= s>>
+           LET mine == IF Has(c, "excl") THEN Cardinality({l \in Labels(c.res) : c.res.g[l].t \notin SeqSet(c.excl)}) ELSE SizeOf(c.res)
+           IN \A s \in sizes : mine <= s>>
      >>)
 =============================================================================
